@@ -28,6 +28,10 @@ use tokio::io::{AsyncRead, AsyncWrite};
 use tokio::net::{TcpListener, UdpSocket};
 use tokio::sync::watch;
 
+/// Stands in for a handshake deadline that the clock cannot represent (roughly 30 years,
+/// the same as tokio's own "far future")
+const FAR_FUTURE: std::time::Duration = std::time::Duration::from_secs(86400 * 365 * 30);
+
 #[derive(Debug)]
 pub enum Error {
     /// Passed settings did not pass the validation
@@ -259,8 +263,11 @@ impl Core {
                 async move {
                     log_id!(trace, client_id, "Starting TLS handshake");
                     // one deadline for the whole handshake: reading the ClientHello and the rest
-                    let handshake_deadline =
-                        tokio::time::Instant::now() + context.settings.tls_handshake_timeout;
+                    let accepted_at = tokio::time::Instant::now();
+                    // (a timeout too large to be added to the clock means "no limit")
+                    let handshake_deadline = accepted_at
+                        .checked_add(context.settings.tls_handshake_timeout)
+                        .unwrap_or_else(|| accepted_at + FAR_FUTURE);
                     match tokio::time::timeout_at(handshake_deadline, tls_listener.listen(stream))
                         .await
                         .unwrap_or_else(|_| Err(io::Error::from(ErrorKind::TimedOut)))
